@@ -11,12 +11,12 @@ def sim():
     return cur_sim()
 
 
-def start_server():
+def start_server(close_on_none=False):
     from pyworkers.remote_server import spawn_server
     s = cur_sim()
     s.proc_tag = 'server'
     try:
-        srv = spawn_server(('127.0.0.1', 0))
+        srv = spawn_server(('127.0.0.1', 0), close_on_none=True) if close_on_none else spawn_server(('127.0.0.1', 0))
     finally:
         s.proc_tag = None
     s.server_pids = tuple(getattr(s, 'server_pids', ())) + (srv.pid,)
